@@ -1,5 +1,5 @@
 //! C12 — ESS = M*N/tau with Geyer's initial positive monotone sequence, on both autocovariance paths.
-use super::c11::{all_perms, impl_split};
+use super::c11::{all_perms, case_with_layout, impl_split, with_layout, LAYOUT_NAMES};
 use super::statsgen::*;
 use crate::common::*;
 use crate::refs::*;
@@ -211,7 +211,7 @@ fn bands(ctx: &Ctx) {
 
 pub fn run(ctx: &Ctx) {
     let conv = Conv { fails: [AtomicU64::new(0), AtomicU64::new(0)], firsts: Mutex::new([vec![], vec![]]), worst: Mutex::new(0.0) };
-    ctx.rule("(i) ALL arrays over {-1,0,1,2} for the listed small shapes; (ii) fixed structured families (iid, AR(1) phi in {-0.9,-0.5,0.5,0.9,0.99}, trend, bimodal, switching, far, constant parameter) over the listed shapes, half-lengths on both sides of the 100-row switch and several FFT paddings; (iii) metamorphic variants (affine, permutations, time reversal) on members whose Geyer cut is not inside the margin; (iv) sanity bands on fixed iid / AR(1) members. Compared quantity: tau = M*N/ESS against the f64 reference (direct O(n^2) autocovariance), set-valued where a pair sum is within 2e-5 of the cut. non-trivial = W>0; states = distinct inputs; transitions = implementation evaluations");
+    ctx.rule("(i) ALL arrays over {-1,0,1,2} for the listed small shapes; (ii) fixed structured families (iid, AR(1) phi in {-0.9,-0.5,0.5,0.9,0.99}, trend, bimodal, switching, far, constant parameter) over the listed shapes, half-lengths on both sides of the 100-row switch and several FFT paddings; (iii) metamorphic variants (affine, permutations, time reversal; every member <= 600 draws again in 4 other memory layouts: Fortran order, two axis-permuted views, reversed strided view) on members whose Geyer cut is not inside the margin; (iv) sanity bands on fixed iid / AR(1) members. Compared quantity: tau = M*N/ESS against the f64 reference (direct O(n^2) autocovariance), set-valued where a pair sum is within 2e-5 of the cut. non-trivial = W>0; states = distinct inputs; transitions = implementation evaluations");
     let shapes = exhaustive_shapes(ctx.tier.thorough());
     let shapes: Vec<_> = shapes.into_iter().filter(|s| n_arrays(*s) <= ctx.tier.pick(1 << 16, 1 << 24)).collect();
     ctx.extra("exhaustive_shapes", json!(shapes.iter().map(|s| format!("{}x{}x{} ({} arrays)", s.0, s.1, s.2, n_arrays(*s))).collect::<Vec<_>>()));
@@ -229,6 +229,11 @@ pub fn run(ctx: &Ctx) {
                 if let Some(t) = check_values(ctx, &conv, &a, &case) {
                     if t.iter().any(|x| x.is_finite()) {
                         nt.push(h);
+                    }
+                }
+                if total <= 4096 || ctx.tier.thorough() && total <= 65536 {
+                    for l in 1..LAYOUT_NAMES.len() as u8 {
+                        with_layout(l, || check_values(ctx, &conv, &a, &case_with_layout(&case, l)));
                     }
                 }
             }
@@ -251,6 +256,12 @@ pub fn run(ctx: &Ctx) {
         }
         if sp.draws <= 600 {
             metamorphic(ctx, &conv, &a, &case);
+            // the same logical array in every other memory layout (Fortran order, permuted axes, reversed strided view):
+            // the full value oracle again on what the implementation returns for that view
+            for l in 1..LAYOUT_NAMES.len() as u8 {
+                with_layout(l, || check_values(ctx, &conv, &a, &case_with_layout(&case, l)));
+                ctx.outcome("layout-variant-checked", 1);
+            }
         }
     });
     path_switch(ctx, &conv);
@@ -282,8 +293,11 @@ pub fn check_case(ctx: &Ctx, case: &Value) {
     } else {
         return;
     };
-    check_values(ctx, &conv, &a, case);
-    metamorphic(ctx, &conv, &a, case);
+    let l = case["layout"].as_u64().unwrap_or(0) as u8;
+    with_layout(l, || check_values(ctx, &conv, &a, case));
+    if l == 0 {
+        metamorphic(ctx, &conv, &a, case);
+    }
     let f0 = conv.fails[0].load(Ordering::Relaxed);
     let f1 = conv.fails[1].load(Ordering::Relaxed);
     let which = if f0 <= f1 { 0 } else { 1 };
